@@ -8,6 +8,9 @@ CONSTANTS
   MaxNodes = 1
   MaxStack = 1
   BugOptionalDropsNone = FALSE
+  FixedStar = FALSE
+  FixedFinalInString = FALSE
+  FixedNestedLiteral = FALSE
   AnnChoices = {"noann"}
   DefaultChoices = {"none"}
   RetChoices = {"noann"}
@@ -18,4 +21,5 @@ CONSTANTS
   MaxPos = 2
   MaxKw = 1
   BugRuntimeIgnoresKwDefaults = FALSE
+  FixedDunder = FALSE
 CHECK_DEADLOCK FALSE
